@@ -52,6 +52,104 @@ def dag_instances(tier, seed, per_shape=2, nmax=None):
     return out
 
 
+def dag_zero_flow_instances(tier, seed, per_shape=2):
+    """conserving integer flows in which at least one arc (hence possibly a node) carries flow 0"""
+    q = tier == "quick"
+    out = []
+    for idx, shp in enumerate(world.dag_shapes(5)):
+        if len(shp[1]) > (5 if q else 6) or len(shp[1]) < 2:
+            continue
+        names, arcs = world.present(shp, seed, idx)
+        g, paths = fdworld.dag_routes(names, arcs)
+        pa = [O.path_arcs(p) for p in paths]
+        flows = sorted(f for f in fdworld.fd_flows(pa, arcs, 2, 3, positive=False) if min(f) == 0)
+        pick = [flows[0], flows[-1], flows[len(flows) // 2]][:per_shape] if flows else []
+        for fv in dict.fromkeys(pick):
+            out.append({"fam": "dag", "nodes": names, "arcs": [[u, v, w] for (u, v), w in zip(arcs, fv)], "zero": True})
+    return out
+
+
+def dag_float_data_instances(tier, seed, per_shape=1):
+    """conserving flows with non-dyadic float values: superpositions of routes with weights from {0.1, 0.7, 0.3}, the arc value
+    being the float sum in route order; kept only if the library's own (exact) conservation test accepts it (that test defines
+    the domain of the flow-decomposition classes)"""
+    q = tier == "quick"
+    out = []
+    wsets = [(0.1, 0.7), (0.7, 0.1), (0.3, 0.1, 0.7)]
+    for idx, shp in enumerate(world.dag_shapes(5)):
+        if len(shp[1]) > (5 if q else 6) or len(shp[1]) < 3:
+            continue
+        names, arcs = world.present(shp, seed, idx)
+        g, paths = fdworld.dag_routes(names, arcs)
+        pa = [O.path_arcs(p) for p in paths]
+        if len(pa) < 2:
+            continue
+        got = 0
+        for ws in wsets:
+            if len(pa) < len(ws):
+                continue
+            f = {e: 0.0 for e in arcs}
+            for p_, w in zip(pa, ws):
+                for e in p_:
+                    f[e] = f[e] + w
+            if any(v == 0 for v in f.values()):
+                continue
+            out.append({"fam": "dag", "nodes": names, "arcs": [[u, v, f[(u, v)]] for (u, v) in arcs], "float_data": True, "n_routes": len(ws)})
+            got += 1
+            if got >= per_shape:
+                break
+    return out
+
+
+def named_dag_instances(tier, seed, per_shape=2, max_w=3):
+    out = []
+    for idx, shp in enumerate(world.named_dag_shapes()):
+        names, arcs = world.present(shp, seed, 500 + idx)
+        g, paths = fdworld.dag_routes(names, arcs)
+        pa = [O.path_arcs(p) for p in paths]
+        flows = sorted(fdworld.fd_flows(pa, arcs, 3, max_w))
+        pick = ([flows[0], flows[-1], flows[len(flows) // 2], flows[len(flows) // 3]][:per_shape] if per_shape <= 4 else flows) if flows else []
+        for fv in dict.fromkeys(pick):
+            out.append({"fam": "dag", "nodes": names, "arcs": [[u, v, w] for (u, v), w in zip(arcs, fv)], "named": True})
+    return out
+
+
+def dag_all_flow_instances(tier, seed, max_arcs, max_routes=3, max_w=2):
+    """EVERY positive flow that is a superposition of <= max_routes routes with weights <= max_w, on every DAG shape with
+    3..max_arcs arcs (flagged 'named': the consumer sweeps every constraint on them)"""
+    out = []
+    for idx, shp in enumerate(world.dag_shapes(5)):
+        if not (3 <= len(shp[1]) <= max_arcs):
+            continue
+        names, arcs = world.present(shp, seed, idx)
+        g, paths = fdworld.dag_routes(names, arcs)
+        pa = [O.path_arcs(p) for p in paths]
+        for fv in sorted(fdworld.fd_flows(pa, arcs, max_routes, max_w)):
+            out.append({"fam": "dag", "nodes": names, "arcs": [[u, v, w] for (u, v), w in zip(arcs, fv)], "named": True, "allflows": True})
+    return out
+
+
+def spine_instances(tier, seed):
+    """The caterpillar: a spine 0-1-2-3-4-5 whose inner nodes 2 and 3 each have one extra in- and out-neighbour, carrying three
+    routes (enter at the left end and leave at 2; enter at 2 and leave at 3; enter at 3 and run to the right end). A constraint on the
+    inner spine arcs has a non-trivial safe extension on both sides (arcs 0-1 and 4-5) - the input the safety / constraint
+    interplay of the DAG models needs. Consumers sweep the lengths of the five spine arcs exhaustively over {1, 4}."""
+    shp = [x for x in world.named_dag_shapes() if x[0] == 10][0]
+    names, arcs = world.present(shp, seed, 500)
+    nm = lambda i: names[i]  # noqa
+    spine = [(nm(0), nm(1)), (nm(1), nm(2)), (nm(2), nm(3)), (nm(3), nm(4)), (nm(4), nm(5))]
+    routes = [[(0, 1), (1, 2), (2, 6)], [(7, 2), (2, 3), (3, 8)], [(9, 3), (3, 4), (4, 5)]]
+    out = []
+    for ws in ((3, 2, 1), (1, 1, 1), (1, 2, 3)):
+        f = {}
+        for r, w in zip(routes, ws):
+            for (i, j) in r:
+                f[(nm(i), nm(j))] = f.get((nm(i), nm(j)), 0) + w
+        out.append({"fam": "dag", "nodes": names, "arcs": [[u, v, f[(u, v)]] for (u, v) in arcs], "named": True,
+                    "spine": [list(e) for e in spine]})
+    return out
+
+
 def cyc_instances(tier, seed, per_shape=2, amax=None):
     from .props.c04 import _flows
     q = tier == "quick"
